@@ -146,9 +146,14 @@ pub fn check(c: &Case, ctx: &mut Ctx) -> Result<(), Failure> {
                     Kind::Er => er_ref(&bclose, n).map(|r| (r.c, 1.0)),
                     Kind::Cci => cci_ref(&bhist, n, big).map(|r| (r.c, 1.0 / 0.015)),
                     _ => {
-                        let mr = mfi_ref(&bhist, n, 0.0);
+                        // both runs take the same direction decisions on the same bars, but whether the window has
+                        // any flow at all (the reference denominator) is decided here in exact arithmetic: a pair of
+                        // typical prices that differ by less than the rounding of (h+l+c)/3 may be a tie for the
+                        // implementation, the window then is degenerate (C08) and residue is all it returns —
+                        // the taint rule of DESIGN section 3 applies to the gate, as in C03/C07/C13
+                        let mr = mfi_ref(&bhist, n, crate::props::c03::SEP);
                         let den = mr.pmf.add(mr.nmf).to_f64();
-                        if den > 0.0 {
+                        if den > 0.0 && !mr.tainted {
                             Some((flow_big.max(mr.max_flow_in_window) / den, 100.0))
                         } else {
                             None
@@ -224,6 +229,27 @@ fn strategy() -> BoxedStrategy<Case> {
                 }
             }
             Case { cfg, scalar, prefix, suffix: suf.bars, gen_prefix: None }
+        })
+        // an exact zero (0.0 or -0.0: a halted quote, a missing print, a return series) among the last 2n+2 inputs of
+        // the prefix: a finite value like any other as far as "forgetting" goes, but the one at which a ratio's
+        // guard, an `== 0.0` shortcut or a sign test takes its special path — what that path leaves behind must be
+        // gone n (n+1) inputs later
+        .prop_flat_map(|c| (Just(c), 0usize..6, proptest::collection::vec((0.0f64..1.0, any::<bool>()), 1..3)))
+        .prop_map(|(mut c, z, at)| {
+            if z == 0 && !c.prefix.is_empty() {
+                let n = c.cfg.n();
+                let len = c.prefix.len();
+                for (u, neg) in at {
+                    let back = ((u * (2 * n + 2) as f64) as usize).min(len - 1);
+                    let v = if neg { -0.0 } else { 0.0 };
+                    let b = &mut c.prefix[len - 1 - back];
+                    b.o = v;
+                    b.h = v;
+                    b.l = v;
+                    b.c = v;
+                }
+            }
+            c
         })
         // the statistics that are defined for any sign (not the ratios of positive prices) also on histories below
         // zero or crossing it: prefix and/or suffix mirrored
